@@ -1981,7 +1981,13 @@ func genExpandCases(r *rng, n int, tier string, cw *caseWriter) {
 		}
 		// 2. resolution
 		for _, rc := range exResolveCases(rf, g, 8) {
+			if g.hasTag("empty-union") {
+				break // the definition that holds the empty union is itself a target here: outside the model (codec finding F4b)
+			}
 			mode := rf.pick([]string{"typed", "generic", "none"})
+			if g.Root == exPseudoRoot && mode == "none" {
+				mode = rf.pick([]string{"typed", "generic"}) // a root without a location can only be handed over as a value
+			}
 			// the options a caller may pass along must not change what a reference designates (nor turn "nothing" into a value)
 			ro := exOpts{Cont: rf.chance(1, 3), Abs: rf.chance(1, 4)}
 			c := g.call("resolve", ro)
@@ -2019,7 +2025,7 @@ func genExpandCases(r *rng, n int, tier string, cw *caseWriter) {
 		}
 		for _, ec := range els {
 			entry := rf.pick(exEntries)
-			if !exEntryApplies(ec.Op, entry) {
+			if !exEntryApplies(ec.Op, entry) || (g.Root == exPseudoRoot && entry == "base_path") {
 				entry = "with_root_generic"
 			}
 			o := exOpts{}
